@@ -379,6 +379,11 @@ impl CoreInner {
 	///
 	/// The actual SST flush happens asynchronously via background task.
 	pub(crate) fn rotate_memtable(&self) -> Result<()> {
+		self.rotate_memtable_sized(self.opts.max_memtable_size)
+	}
+
+	/// `rotate_memtable` with the arena capacity of the fresh active memtable given.
+	pub(crate) fn rotate_memtable_sized(&self, arena_capacity: usize) -> Result<()> {
 		// Step 1: Acquire WRITE lock upfront to prevent race conditions
 		let mut active_memtable = self.active_memtable.write()?;
 		verif_yield!("lk.rotate.active");
@@ -409,10 +414,8 @@ impl CoreInner {
 		};
 
 		// Step 3: Swap memtable while STILL holding write lock
-		let flushed_memtable = std::mem::replace(
-			&mut *active_memtable,
-			Arc::new(MemTable::new(self.opts.max_memtable_size)),
-		);
+		let flushed_memtable =
+			std::mem::replace(&mut *active_memtable, Arc::new(MemTable::new(arena_capacity)));
 
 		// Set the WAL number on the new (empty) active memtable
 		active_memtable.set_wal_number(new_wal_number);
@@ -993,30 +996,35 @@ impl CommitEnv for LsmCommitEnv {
 
 	/// Apply batch to memtable with retry on arena full.
 	fn apply(&self, batch: &Batch) -> Result<()> {
-		// Try to add to current memtable
-		let result = {
-			let active_memtable = self.core.active_memtable.read()?;
-			self.add_to_active(&active_memtable, batch)
-		};
+		// `write` let the batch through because it fits an empty memtable when its nodes get the
+		// shortest towers; a fresh memtable sized for the tallest ones is certain to take it.
+		let arena_capacity =
+			self.core.opts.max_memtable_size.max(MemTable::arena_size_for(batch)?);
+		let mut rotations = 0;
 
-		match result {
-			Ok(()) => Ok(()),
-			Err(Error::ArenaFull) => {
-				// Arena is full - rotate memtable and retry
-				log::debug!("apply: arena full, rotating memtable");
-
-				self.core.rotate_memtable()?;
-
-				// Schedule background flush
-				if let Some(ref task_manager) = self.task_manager {
-					task_manager.wake_up_memtable();
-				}
-
-				// Retry on new memtable - must succeed
+		loop {
+			// Try to add to current memtable
+			let result = {
 				let active_memtable = self.core.active_memtable.read()?;
 				self.add_to_active(&active_memtable, batch)
+			};
+
+			match result {
+				// Concurrent committers may fill the fresh memtable first: rotate again
+				Err(Error::ArenaFull) if rotations < MAX_APPLY_ROTATIONS => {
+					// Arena is full - rotate memtable and retry
+					log::debug!("apply: arena full, rotating memtable");
+					rotations += 1;
+
+					self.core.rotate_memtable_sized(arena_capacity)?;
+
+					// Schedule background flush
+					if let Some(ref task_manager) = self.task_manager {
+						task_manager.wake_up_memtable();
+					}
+				}
+				other => return other,
 			}
-			Err(e) => Err(e),
 		}
 	}
 
@@ -1029,6 +1037,9 @@ impl CommitEnv for LsmCommitEnv {
 		self.core.oldest_active_start_seq()
 	}
 }
+
+/// How often `apply` rotates the memtable for one batch before it gives up.
+const MAX_APPLY_ROTATIONS: usize = 8;
 
 // ===== Core with Background Task Management =====
 /// Wraps the LSM tree core with background task management.
